@@ -684,9 +684,9 @@ def oracle_bary(ops, impl):
                 b = [dot(cross(sub(P[1], target), sub(P[2], target)), n),
                      dot(cross(sub(target, P[0]), sub(P[2], P[0])), n),
                      dot(cross(sub(P[1], P[0]), sub(target, P[0])), n)]
-                # the C shifts by n*((q-x0).n) (un-normalised): the shift can be |n|^2 times larger than the
-                # distance to the plane, which costs accuracy; scale the tolerance by it
-                D = L * (2.0 + float(nn))
+                # the C shifts by n*((q-x0).n)/(n.n): the orthogonal projection (since the repair in /repo; before it
+                # the shift was |n|^2 times the distance to the plane and this tolerance had to carry a factor 2+|n|^2)
+                D = L * 2.0
                 # + the in-plane part (size d*L) of the sub-normals meets the rounding of n (size eps*L^2)
                 errb = 256 * EPS * (D * D * math.sqrt(float(nn)) + L ** 4)
             tot = sum(b)
